@@ -581,3 +581,197 @@ func TestC17Halt(t *testing.T) {
 		c.Class(fmt.Sprintf("batch-%d", batch))
 	})
 }
+
+// c17ModelOf derives the spork table from the ledger of a producing node: creations and first activations sent by
+// the designated key and received without error; enforcement = height of the momentum the activation's receive
+// acknowledges + 6.
+func c17ModelOf(c *pbt.C, n *sim.Node, sporkKey types.Address) []*c17spork {
+	l, err := sim.Scan(n)
+	if err != nil {
+		c.Failf("C17/scan-error", "%v", err)
+	}
+	var model []*c17spork
+	for _, r := range l.Blocks[types.SporkContract] {
+		if r.BlockType != nom.BlockTypeContractReceive {
+			continue
+		}
+		snd := l.Sends[r.FromBlockHash]
+		if snd == nil || snd.Address != sporkKey || len(snd.Data) < 4 {
+			continue
+		}
+		if len(r.Data) != 8 || r.Data[7] != 1 { // status word of the receive: 1 = success
+			continue
+		}
+		m, err := definition.ABISpork.MethodById(snd.Data[:4])
+		if err != nil {
+			continue
+		}
+		switch m.Name {
+		case definition.SporkCreateMethodName:
+			model = append(model, &c17spork{id: snd.Hash, name: snd.Hash.String()[:8], impl: -1})
+		case definition.SporkActivateMethodName:
+			id := new(types.Hash)
+			_ = definition.ABISpork.UnpackMethod(id, m.Name, snd.Data)
+			for _, sp := range model {
+				if sp.id == *id && !sp.activated {
+					sp.activated = true
+					sp.enforce = r.MomentumAcknowledged.Height + 6
+				}
+			}
+		}
+	}
+	return model
+}
+
+// TestC17Reorg: two branches activate the same sporks at different heights (or not at all). A node that followed
+// the first branch — and evaluated gated calls there — and then adopted the second decides every gated call by the
+// heights of the branch it is on, exactly like a node that only ever saw that branch.
+func TestC17Reorg(t *testing.T) {
+	pbt.Check(t, "C17", func(c *pbt.C) {
+		spec := genSpec(c)
+		spec.ActiveSporks = 0
+		h := sim.NewHist(c, spec, genWorldOpts(c))
+		sporkKey := h.W.Keys.Spork.Address
+		var undo []func()
+		c.Cleanup(func() {
+			for i := len(undo) - 1; i >= 0; i-- {
+				undo[i]()
+			}
+		})
+		zero := big.NewInt(0)
+		nsp := c.Int("sporks", 1, 3)
+		for i := 0; i < nsp; i++ {
+			_, _ = h.Submit(&nom.AccountBlock{Address: sporkKey, ToAddress: types.SporkContract, TokenStandard: types.ZnnTokenStandard, Amount: zero,
+				Data: definition.ABISpork.PackMethodPanic(definition.SporkCreateMethodName, fmt.Sprintf("spork-%d", i), "created by the harness")}, "spork.Create")
+			if c.Bool("createApart") {
+				h.Produce(0)
+			}
+		}
+		for i := 0; i < 2+c.Int("prefix.more", 0, 4); i++ {
+			h.Produce(c.Weighted("prefix.skip", 5, 1))
+		}
+		if h.Dead {
+			return
+		}
+		base := c17ModelOf(c, h.A, sporkKey)
+		if len(base) == 0 {
+			return
+		}
+		// each spork is one of the three implemented ones (a drawn assignment)
+		perm := []int{0, 1, 2}
+		for i := 2; i > 0; i-- {
+			k := c.Int("impl.perm", 0, i)
+			perm[i], perm[k] = perm[k], perm[i]
+		}
+		implOf := map[types.Hash]int{}
+		for i, s := range base {
+			implOf[s.id] = perm[i%3]
+			undo = append(undo, bindSpork(c17impl[perm[i%3]], s.id))
+		}
+		forkAt := h.A.Height()
+		a2 := h.W.AddNode("A2", true)
+		b := h.W.AddNode("B", false)
+		for _, n := range []*sim.Node{a2, b} {
+			if _, err := n.Bridge.InsertChain(h.A.Range(2, forkAt)); err != nil {
+				c.Failf("C17/setup", "%s cannot sync the prefix: %v", n.Name, err)
+			}
+		}
+		h2 := sim.NewHistOn(c, h.W, a2, h)
+		branch := func(hh *sim.Hist, label string, length int) {
+			at := map[int][]types.Hash{}
+			for _, s := range base {
+				if c.Weighted(label+".activates", 1, 4) == 1 {
+					k := c.Int(label+".activateAt", 0, length-1)
+					at[k] = append(at[k], s.id)
+				}
+			}
+			for step := 0; step < length && !hh.Dead; step++ {
+				for _, id := range at[step] {
+					_, _ = hh.Submit(&nom.AccountBlock{Address: sporkKey, ToAddress: types.SporkContract, TokenStandard: types.ZnnTokenStandard, Amount: zero,
+						Data: definition.ABISpork.PackMethodPanic(definition.SporkActivateMethodName, id)}, label+": spork.Activate("+id.String()[:8]+")")
+				}
+				hh.Produce(c.Weighted(label+".skip", 6, 1))
+			}
+		}
+		lenX := c.Int("x.len", 2, 24)
+		branch(h, "x", lenX)
+		branch(h2, "y", lenX+1+c.Int("y.extra", 0, 8))
+		if h.Dead || h2.Dead {
+			return
+		}
+		withImpl := func(m []*c17spork) []*c17spork {
+			for _, s := range m {
+				s.impl = implOf[s.id]
+			}
+			return m
+		}
+		modelX, modelY := withImpl(c17ModelOf(c, h.A, sporkKey)), withImpl(c17ModelOf(c, a2, sporkKey))
+		c.Note("fork at %d; X to %d: %s; Y to %d: %s", forkAt, h.A.Height(), c17describe(modelX), a2.Height(), c17describe(modelY))
+		probes := c17probes()
+		from := sim.UserKey(1).Address
+		kp := h.W.Keys.ByAddr[from]
+		// decide evaluates every probe at every height of n's chain; returns "probe@height" -> accepted
+		decide := func(n *sim.Node, model []*c17spork, tag string) map[string]bool {
+			out := map[string]bool{}
+			top := n.Height()
+			for ht := uint64(2); ht <= top; ht++ {
+				m, err := n.Chain.GetFrontierMomentumStore().GetMomentumByHeight(ht)
+				if err != nil || m == nil {
+					continue
+				}
+				level := c17level(model, ht)
+				for _, p := range probes {
+					tpl := p.build(h, from)
+					tpl.BlockType = nom.BlockTypeUserSend
+					tpl.MomentumAcknowledged = m.Identifier()
+					_, gerr := n.Sup.GenerateFromTemplate(tpl, kp.Signer)
+					c.R.Count("gating_probes", 1)
+					want := level >= p.minLevel
+					out[fmt.Sprintf("%s@%d", p.name, ht)] = gerr == nil
+					if !want && gerr == nil {
+						c.Failf("C17/available-before-enforcement/"+p.name, "%s: %s acknowledging momentum %d was accepted by %s although its spork is not active at that height of the chain the node is on (level %d, needs %d; sporks: %s)",
+							tag, p.name, ht, n.Name, level, p.minLevel, c17describe(model))
+					}
+					if want && isGatingError(gerr) {
+						c.Failf("C17/unavailable-after-enforcement/"+p.name, "%s: %s acknowledging momentum %d was refused by %s with %q although its spork is active from that height on (level %d; sporks: %s)",
+							tag, p.name, ht, n.Name, gerr, level, c17describe(model))
+					}
+				}
+			}
+			return out
+		}
+		if _, err := b.Bridge.InsertChain(h.A.Range(forkAt+1, h.A.Height())); err != nil {
+			c.Failf("C17/honest-branch-refused", "follower refused the honest branch X: %v", err)
+		}
+		decide(b, modelX, "on the first branch")
+		if _, err := b.Bridge.InsertChain(a2.Range(forkAt+1, a2.Height())); err != nil {
+			c.Failf("C17/honest-branch-refused", "after evaluating gated calls on branch X the follower refuses the honest longer branch Y (its blocks are decided by the heights of Y): %v", err)
+		}
+		if b.Frontier().Hash != a2.Frontier().Hash {
+			c.Failf("C17/setup", "follower did not adopt the longer branch")
+		}
+		db := decide(b, modelY, "after the reorganisation")
+		cn := h.W.AddNode("C", false)
+		if _, err := cn.Bridge.InsertChain(a2.Range(2, a2.Height())); err != nil {
+			c.Failf("C17/setup", "fresh node refused prefix+Y: %v", err)
+		}
+		dc := decide(cn, modelY, "fresh node")
+		for k, v := range dc {
+			if db[k] != v {
+				c.Failf("C17/nodes-disagree", "%s: the reorganised node says accepted=%v, a node that only saw the adopted branch says %v", k, db[k], v)
+			}
+		}
+		differ := false
+		for _, sx := range modelX {
+			for _, sy := range modelY {
+				if sx.id == sy.id && (sx.activated != sy.activated || sx.enforce != sy.enforce) {
+					differ = true
+				}
+			}
+		}
+		if differ {
+			c.NonTrivial()
+			c.Class("branches-enforce-at-different-heights")
+		}
+	})
+}
